@@ -286,6 +286,15 @@ def score_case(rnd, vd, kind):
 
 
 def tts_case(rnd, vd, kind):
+    "configurations the splitters reject (too few blocks/rows for the requested sizes) are regenerated"
+    while True:
+        try:
+            return _tts_case(rnd, vd, kind)
+        except (ValueError, ZeroDivisionError):
+            continue
+
+
+def _tts_case(rnd, vd, kind):
     from sklearn.model_selection import ShuffleSplit
     blocked = kind == "tts-blocked"
     ncomp = rnd.choice([1, 2, 3])
